@@ -47,6 +47,7 @@ type PartitionRouter struct {
 
 	mu     sync.RWMutex
 	routes map[string]string // "topic/partition" -> brokerID
+	rev    int64             // etcd revision reflected in routes; the watch resumes at rev+1
 }
 
 // NewPartitionRouter creates a router and starts watching etcd for lease changes.
@@ -130,6 +131,7 @@ func (r *PartitionRouter) loadAll(ctx context.Context) error {
 	}
 	r.mu.Lock()
 	r.routes = fresh
+	r.rev = resp.Header.Revision
 	r.mu.Unlock()
 	r.logger.Info("loaded partition routes from etcd", "count", len(fresh))
 	return nil
@@ -137,7 +139,12 @@ func (r *PartitionRouter) loadAll(ctx context.Context) error {
 
 func (r *PartitionRouter) watch(ctx context.Context) {
 	for {
-		watchChan := r.client.Watch(ctx, partitionLeasePrefix+"/", clientv3.WithPrefix(), clientv3.WithPrevKV())
+		// Resume right after the revision the table reflects, so that changes made
+		// between the full read and the start of the watch are not missed.
+		r.mu.RLock()
+		startRev := r.rev + 1
+		r.mu.RUnlock()
+		watchChan := r.client.Watch(ctx, partitionLeasePrefix+"/", clientv3.WithPrefix(), clientv3.WithPrevKV(), clientv3.WithRev(startRev))
 		for resp := range watchChan {
 			if resp.Err() != nil {
 				r.logger.Warn("partition lease watch error", "error", resp.Err())
@@ -145,6 +152,9 @@ func (r *PartitionRouter) watch(ctx context.Context) {
 			}
 			r.mu.Lock()
 			for _, ev := range resp.Events {
+				if ev.Kv.ModRevision > r.rev {
+					r.rev = ev.Kv.ModRevision
+				}
 				etcdKey := string(ev.Kv.Key)
 				routeKey, ok := leaseKeyToRouteKey(etcdKey)
 				if !ok {
